@@ -108,3 +108,20 @@ M("c17-wrapper-calls-self", "C17", "wrapper-skeleton", (CG, '"%s, lambda:__M_%s(
 M("c17-template-args-win", "C17", "arg-precedence", (CA, "            tmpl_kw = self.template.cache_args.copy()\n            tmpl_kw.update(kw)\n            self._def_regions[defname] = tmpl_kw", "            tmpl_kw = dict(kw)\n            tmpl_kw.update(self.template.cache_args)\n            self._def_regions[defname] = tmpl_kw"))
 M("c17-timeout-str", "C17", "arg-precedence", (CG, 'cache_args["timeout"] = int(eval(cache_args["timeout"]))', 'cache_args["timeout"] = eval(cache_args["timeout"])'))
 M("c17-save-after-def", "C17", "wrapper-skeleton", (CG, '        self.printer.writeline("__M_%s = %s" % (name, name))\n        cachekey', '        cachekey'), (CG, '        self.printer.writeline("def %s(%s):" % (name, ",".join(args)))\n\n        # form', '        self.printer.writeline("def %s(%s):" % (name, ",".join(args)))\n        self.printer.writeline("__M_%s = %s" % (name, name))\n\n        # form'))
+
+# ---------------------------------------------------------------- C03
+PT = "mako/parsetree.py"
+PG = "mako/pygen.py"
+M("c03-primary-no-with", "C03", "keyword-tables", (PT, 'keyword in ["for", "if", "while", "try", "with"]', 'keyword in ["for", "if", "while", "try"]'))
+M("c03-compound-no-except", "C03", "skeletons", (PG, '(if|try|elif|while|for|with|except)', '(if|try|elif|while|for|with)'))
+M("c03-unindentor-no-elif", "C03", "skeletons", (PG, 'r"^\\s*(else|elif|except|finally).*\\:"', 'r"^\\s*(else|except|finally).*\\:"'))
+M("c03-flag-without-push", "C03", "loop-pairing", (CG, "    if loop_variable.detected:\n        node.nodes[-1].has_loop_context = True\n", "    node.nodes[-1].has_loop_context = True\n    if loop_variable.detected:\n"))
+M("c03-loop-not-guarded", "C03", "enable-loop-guard", (CG, 'if self.compiler.enable_loop and node.keyword == "for":', 'if node.keyword == "for":'))
+M("c03-loopstack-always", "C03", "enable-loop-guard", (CG, '        if self.compiler.enable_loop:\n            has_loop = "loop" in to_write\n            to_write.discard("loop")\n        else:\n            has_loop = False', '        has_loop = "loop" in to_write\n        to_write.discard("loop")'))
+M("c03-odd-flipped", "C03", "loopcontext-algebra", (R, "        return bool(self.index % 2)", "        return bool(self.index % 2 == 0)"))
+M("c03-reverse-index-off", "C03", "loopcontext-algebra", (R, "        return len(self) - self.index - 1", "        return len(self) - self.index"))
+M("c03-index-before-yield", "C03", "loopcontext-algebra", (R, "            yield i\n            self.index += 1", "            self.index += 1\n            yield i"))
+M("c03-exit-returns-popped", "C03", "loop-pairing", (R, "    def _exit(self):\n        self._pop()\n        return self._top", "    def _exit(self):\n        return self._pop()"))
+M("c03-regex-header", "C03", "for-target-alphabet", (CG, "        target, iterable = _for_loop_parts(node)\n", "        match = _FOR_LOOP.match(node.text)\n        if not match:\n            raise SyntaxError(node.text)\n        target, iterable = match.group(1), match.group(2)\n"))
+M("c03-reserved-loop-always", "C03", "enable-loop-guard", (T, '            return codegen.RESERVED_NAMES.difference(["loop"])', '            return codegen.RESERVED_NAMES'))
+M("c03-benign-last", "C03", "silent", (R, "        return self.index == len(self) - 1", "        return self.reverse_index == 0"))
